@@ -491,7 +491,7 @@ def statement_bounds(masked: str, f: Fn, needle_idx: int):
     return start, k
 
 
-def splice_module(mod: str, src: str, recs, report):
+def splice_module(mod: str, src: str, recs, report, havoc=()):
     masked, blocks, fns = scan_module(src)
     edits = []
     uses = []
@@ -623,6 +623,18 @@ def splice_module(mod: str, src: str, recs, report):
             uses.append(body)
         else:
             raise ExtractError("%s: unknown record kind @%s" % (rec.origin, k))
+    # functions without any contract whose bodies Verus cannot ingest (reported by the driver after a first run):
+    # body hidden, NO contract assumed, so every caller sees an arbitrary effect
+    for (hmod, hname, hcont) in havoc:
+        if hmod != mod:
+            continue
+        for f in fns:
+            if f.name == hname and (f.container or None) == (hcont or None):
+                fq = "%s::%s" % (mod, hname)
+                if f.item_start in fn_attrs and any("external" in a for a in fn_attrs[f.item_start]):
+                    continue
+                add_attr(f, "#[verifier::external_body]")
+                report.setdefault("auto_havoc", []).append({"fn": fq, "container": hcont})
     for pos, attrs in fn_attrs.items():
         edits.append((pos, pos, "".join(a + "\n" for a in attrs)))
     out = apply_edits(src, edits)
@@ -633,7 +645,7 @@ def sha256(path):
     return hashlib.sha256(open(path, "rb").read()).hexdigest()
 
 
-def extract(out_path: str, report_path: str, contracts_dir=None, modules=None):
+def extract(out_path: str, report_path: str, contracts_dir=None, modules=None, havoc=()):
     contracts_dir = contracts_dir or os.path.join(VERIF, "contracts")
     report = {"sources": {}, "anchors": [], "normalisations": [], "assumed": [], "external": [],
               "under_contract": [], "fn_props": {}, "contracts": {}}
@@ -667,7 +679,7 @@ def extract(out_path: str, report_path: str, contracts_dir=None, modules=None):
         if os.path.exists(vs):
             report["contracts"][m + ".vspec"] = sha256(vs)
             recs = parse_vspec(vs)
-        text = splice_module(m, src, recs, report)
+        text = splice_module(m, src, recs, report, havoc)
         parts.append("pub mod %s {\nuse vstd::prelude::*;\n#[allow(unused_imports)] use crate::stdspec::*;\n"
                      "#[allow(unused_imports)] use crate::model::*;\nverus! {\n%s\n} // verus!\n}\n" % (m, text))
     parts.append("fn main() {}\n")
